@@ -249,3 +249,63 @@ nlri_harness!(c03_nlri_ls, Family::LS, 32, 34);
 nlri_harness!(c03_nlri_srpolicyv4, Family::IPV4_SRPOLICY, 24, 26);
 nlri_harness!(c03_nlri_evpn, Family::L2VPN_EVPN, 40, 42);
 nlri_harness!(c03_nlri_rtc, Family::RTC, 16, 18);
+
+// ------------------------------------------------------------------------------------------ C05: attribute body decoder
+
+/// `Attribute::decode` for one attribute type with a fixed or modular length rule: the attribute is accepted (Ok) only
+/// if its length obeys the rule of its defining RFC, it is stored with the code and flags received, ORIGIN holds a
+/// defined value; never panics.  BOUNDED: attribute values of 0..=26 bytes.
+fn attr_decode_check(code: u8) {
+    let flags: u8 = kani::any();
+    let len: u16 = kani::any();
+    kani::assume(len <= 26);
+    let data: [u8; 26] = kani::any();
+    let mut cur = std::io::Cursor::new(&data[..len as usize]);
+    match Attribute::decode(code, flags, &mut cur, len, false) {
+        Ok(a) => {
+            assert!(a.code() == code && a.flags() == flags, "C05.decode.stored_with_the_code_and_flags_received");
+            let ok = match code {
+                1 => len == 1,
+                4 | 5 | 9 => len == 4,
+                6 => len == 0,
+                7 => len == 6 || len == 8,
+                8 | 10 => len % 4 == 0,
+                16 => len % 8 == 0,
+                18 => len == 8,
+                32 => len % 12 == 0,
+                _ => true,
+            };
+            assert!(ok, "C05.decode.length_obeys_the_attributes_rfc");
+            if code == 1 {
+                assert!(a.value().is_some_and(|v| v <= 2), "C05.decode.origin_value_is_defined");
+            }
+            kani::cover!(true, "some value is accepted");
+            core::mem::forget(a);
+        }
+        Err(_) => {
+            kani::cover!(true, "some value is rejected");
+        }
+    }
+    kani::cover!(true, "harness end reachable");
+}
+
+macro_rules! attr_decode_harness {
+    ($name:ident, $code:expr) => {
+        #[kani::proof]
+        #[kani::unwind(28)]
+        fn $name() {
+            attr_decode_check($code);
+        }
+    };
+}
+attr_decode_harness!(c05_attr_decode_origin, 1);
+attr_decode_harness!(c05_attr_decode_med, 4);
+attr_decode_harness!(c05_attr_decode_local_pref, 5);
+attr_decode_harness!(c05_attr_decode_atomic_aggregate, 6);
+attr_decode_harness!(c05_attr_decode_aggregator, 7);
+attr_decode_harness!(c05_attr_decode_community, 8);
+attr_decode_harness!(c05_attr_decode_originator_id, 9);
+attr_decode_harness!(c05_attr_decode_cluster_list, 10);
+attr_decode_harness!(c05_attr_decode_ext_community, 16);
+attr_decode_harness!(c05_attr_decode_as4_aggregator, 18);
+attr_decode_harness!(c05_attr_decode_large_community, 32);
